@@ -561,6 +561,11 @@ def mk_app(f, args=(), kw=()):
         if isinstance(lo, Const) and lo.v == 0:
             return App(f, (o, NONE, hi, step))          # s[0:k] == s[:k]
         return App(f, args)
+    if f in ("set", "frozenset") and n == 1 and not kw and isinstance(args[0], TupleV):
+        uniq = {}
+        for i in args[0].items:
+            uniq.setdefault(i._key, i)
+        return TupleV([uniq[k] for k in sorted(uniq)], "set")   # a set literal: order-free, duplicates merged
     if f == "sorted" and n == 1 and not kw:
         a = args[0]
         if isinstance(a, TupleV):
